@@ -576,11 +576,27 @@ class Session:
             trial = copy.deepcopy(m)
             trial.apply_op(step, sut_outcome=None)
             after = trial.logical[H.res]
+            # the failed call may already have re-targeted positions in memory through its own object (a child
+            # shifted by insert, replaced by setitem ...): handles the completed call would have detached are no
+            # longer asserted on, whatever the resource now holds
+            for hid, th in trial.handles.items():
+                if not th.attached and hid in m.handles:
+                    m.handles[hid].attached = False
             if got == MISSING and before == MISSING:
+                if len(m.roots_of(H.res)) > 1:
+                    # no resource content, several objects: each object keeps its own memory, which the
+                    # single-content model cannot represent
+                    raise StopCase()
                 # a missing resource is read as "keep what is in memory": the failed operation's
-                # in-memory effect stays and is persisted by the next successful save
-                m.logical[H.res] = copy.deepcopy(after)
-                m.may_create[H.res] = True
+                # in-memory effect - if it got that far (the fault may have hit the load) - stays and is
+                # persisted by the next successful save. With no resource content the memory is the only
+                # content there is, so it is peeked at to learn which of the two it is.
+                mem = model.to_plain(self.objs[H.root])
+                if model.compare(mem, after) == "ok":
+                    m.logical[H.res] = copy.deepcopy(after)
+                    m.may_create[H.res] = True
+                elif model.compare(mem, m.logical[H.res]) != "ok":
+                    raise StopCase()
                 m._recheck_kinds(H.res)
                 return
             if got != MISSING and before != MISSING and model.compare(got, before) == "ok":
